@@ -17,7 +17,7 @@ VERIF = os.path.dirname(os.path.dirname(os.path.abspath(__file__)))
 BASE = os.environ.get("HARMLESS_BASE", "/tmp/cleanrepo")
 SCRATCH = os.environ.get("HARMLESS_SCRATCH", "/tmp/hrepo")
 PIDS = ["C%02d" % i for i in range(1, 21)]
-WITH_LEAN = {"C09", "C10", "C15", "C17"}
+WITH_LEAN = {"C09", "C10", "C15", "C17", "C19"}
 
 
 def main():
